@@ -432,3 +432,95 @@ def sizes_cases(rng: random.Random, thorough: bool):
         lines += ["iter", "blobs", "obs", "get 61", "close", "end"]
         cases.append("\n".join(lines) + "\n")
     return cases
+
+
+# ------------------------------------------------------------------ K6: concurrent programs
+def conc_case(name, rng: random.Random, seed=None):
+    keys = [b"k1", b"k2", b"a"][: rng.choice([2, 2, 3])]
+    contents = [b"XX", b"ZZ", b"YYY", b""][: rng.choice([2, 3, 3, 4])]
+    n = rng.choice([1, 2, 3, 100])
+    lines = [f"conc {name}", f"cfg kt=bytes n={n}"]
+    for _ in range(rng.choice([0, 1, 2, 3])):
+        lines.append(f"setup put {hexs(rng.choice(keys))} {hexs(rng.choice(contents))}")
+    norph = rng.choice([0, 0, 1, 2])
+    orph = rng.sample(contents + [b"orphan-only"], k=norph)
+    for c in orph:
+        lines.append(f"orphan {hexs(c)}")
+    nthreads = rng.choice([2, 2, 3, 3, 4])
+    used_orphans = False
+    for t in range(1, nthreads + 1):
+        for _ in range(rng.choice([1, 1, 2])):
+            r = rng.random()
+            k = hexs(rng.choice(keys))
+            if r < 0.42:
+                lines.append(f"thread {t} put {k} {hexs(rng.choice(contents))}")
+            elif r < 0.57:
+                lines.append(f"thread {t} remove {k}")
+            elif r < 0.64:
+                lines.append(f"thread {t} remove_range U U" if rng.random() < 0.5 else f"thread {t} remove_range I:{hexs(min(keys))} I:{hexs(max(keys))}")
+            elif r < 0.80:
+                lines.append(f"thread {t} get {k}")
+            elif r < 0.85:
+                lines.append(f"thread {t} size {k}")
+            elif r < 0.90:
+                lines.append(f"thread {t} checkpoint")
+            elif r < 0.94:
+                lines.append(f"thread {t} abort {k} {hexs(rng.choice(contents))}")
+            elif norph and not used_orphans:
+                lines.append(f"thread {t} delorphans"); used_orphans = True
+            else:
+                lines.append(f"thread {t} get {k}")
+    lines.append(f"seed {seed if seed is not None else rng.randrange(1, 10**6)}")
+    lines.append("end")
+    return "\n".join(lines) + "\n"
+
+
+def conc_corpus():
+    """schedules that matter: two in-flight puts of one key, put racing the removal of the last other
+    reference of its content, reader between lookup and open, clean-up racing a put of orphaned content"""
+    return [
+        "conc corpus_samekey\ncfg kt=bytes n=100\nsetup put 6b 5858\nthread 1 put 6b 5858\nthread 2 put 6b 5959\nsched 1 1 1 1 2 2 2 2 2 2 2 2 2 2 1 1 1 1 1 1 1\nend\n",
+        "conc corpus_samekey3\ncfg kt=bytes n=100\nsetup put 6b 5858\nsetup put 6c 5a5a\nthread 1 put 6b 5a5a\nthread 2 put 6b 5959\nthread 3 remove 6c\nsched 1 1 1 1 2 2 2 2 2 2 2 2 2 2 3 3 3 3 3 3 3 3 3 1 1 1 1 1 1 1\nend\n",
+        "conc corpus_reader\ncfg kt=bytes n=100\nsetup put 6b 5858\nthread 1 get 6b\nthread 2 put 6b 5959\nsched 1 1 1 2 2 2 2 2 2 2 2 2 2 2 2 1 1 1 1\nend\n",
+        "conc corpus_reader_rm\ncfg kt=bytes n=100\nsetup put 6b 5858\nthread 1 get 6b\nthread 2 remove 6b\nsched 1 1 1 2 2 2 2 2 2 2 2 2 2 1 1 1 1\nend\n",
+        "conc corpus_orphan_put\ncfg kt=bytes n=100\norphan 5858\nthread 1 delorphans\nthread 2 put 6b 5858\nsched 2 2 2 2 1 1 1 1 1 2 2 2 2 2 2 2\nend\n",
+        "conc corpus_orphan_put2\ncfg kt=bytes n=100\norphan 5858\nthread 1 delorphans\nthread 2 put 6b 5858\nsched 1 1 2 2 2 2 2 2 1 1 1 1 2 2 2 2 2 2\nend\n",
+        "conc corpus_share\ncfg kt=bytes n=2\nsetup put 6b31 5858\nthread 1 put 6b32 5858\nthread 2 put 6b31 5a5a\nsched 1 1 1 1 2 2 2 2 2 2 2 2 2 2 2 2 1 1 1 1 1 1 1 1\nend\n",
+        "conc corpus_rm_put\ncfg kt=bytes n=100\nsetup put 6b31 5858\nthread 1 remove 6b31\nthread 2 put 6b32 5858\nsched 2 2 2 1 1 1 1 1 1 2 2 1 1 1 2 2 2 2 2 2\nend\n",
+        "conc corpus_ckpt\ncfg kt=bytes n=1\nsetup put 6b31 5858\nthread 1 checkpoint\nthread 2 put 6b32 5959\nthread 3 get 6b31\nseed 5\nend\n",
+    ]
+
+
+
+# ------------------------------------------------------------------ K9: handle life cycle / racing opens
+def race_cases(rng: random.Random, n: int):
+    cases = ["race corpus_r1\n" + "\n".join("ev " + e for e in [
+        "open a", "open b", "openn b 7", "clone a a2", "drop a", "open b", "drop a2", "open b", "drop b",
+        "openstats c", "dropcas c", "open d", "openn d 9", "dropstats c", "open d", "drop d",
+        "spawn p1", "open e", "openn e 5", "kill p1", "open e", "drop e", "racethreads 6", "raceprocs 4", "open f"]) + "\nend\n"]
+    for i in range(n):
+        evs, live, names, procs = ["open s0", "drop s0"], [], 0, []      # created with the default segment size
+        for _ in range(rng.choice([6, 10, 14])):
+            r = rng.random()
+            if r < 0.35:
+                names += 1; s = f"s{names}"
+                kind = rng.choice(["open", "open", "openstats", "openn"])
+                evs.append(f"{kind} {s}" + (f" {rng.choice([1, 5, 7])}" if kind == "openn" else ""))
+                live.append(s)          # slot exists only if it won; dropping a non-existent slot is a no-op
+                if kind == "openstats": live.append(s + "!stats")
+            elif r < 0.5 and live:
+                s = rng.choice([x for x in live if not x.endswith("!stats")] or ["zz"])
+                names += 1; evs.append(f"clone {s} s{names}"); live.append(f"s{names}")
+            elif r < 0.75 and live:
+                s = rng.choice(live); live.remove(s)
+                evs.append(f"dropstats {s[:-6]}" if s.endswith("!stats") else f"drop {s}")
+            elif r < 0.85:
+                names += 1; evs.append(f"spawn p{names}"); procs.append(f"p{names}")
+            elif r < 0.93 and procs:
+                p = procs.pop(rng.randrange(len(procs))); evs.append(f"kill {p}")
+            elif r < 0.97:
+                evs.append(f"racethreads {rng.choice([2, 4, 8])}")
+            else:
+                evs.append(f"raceprocs {rng.choice([2, 3])}")
+        cases.append(f"race r{i}\n" + "\n".join("ev " + e for e in evs) + "\nend\n")
+    return cases
